@@ -58,10 +58,10 @@ def record(P, start, mode, api, pre=None, ed=None, copy_after=False):
 
 
 def execute(c):
-    api = c.get("api", c["cid"] % 3)
+    api = c.get("api", lib.vid(c) % 3)
     events = []
     try:
-        events = record(c["P"], c["start"], c["mode"], api, c.get("pre"), c.get("ed"), c["cid"] % 2 == 1)
+        events = record(c["P"], c["start"], c["mode"], api, c.get("pre"), c.get("ed"), lib.vid(c) % 2 == 1)
     except RecursionError:
         return {"events": [], "err": "RecursionError"}
     return {"events": events}
